@@ -97,3 +97,36 @@ PROPS["C04"] = {
     "outside": "raw images of sequences produced by rev/comp/bitwise ops/remove are covered through their own checks' position-wise results plus the "
                "alignment claim here for copies; images longer than two words",
 }
+
+PROPS["C02"] = {
+    "feature": "c02",
+    "tiers": tiers("C02"),
+    "mem_gb": 12,
+    "functions": ["PartialEq impls between Seq/&Seq/SeqSlice/&SeqSlice/SeqArray/Kmer/&str (seq.rs, seq/slice.rs, kmer.rs)", "Hash for SeqSlice / Seq / Kmer",
+                  "Borrow<SeqSlice> for Seq, AsRef, Deref"],
+    "bounds": {"all": "two windows of 2-3 symbolic words at independent symbolic offsets, symbolic lengths up to 8 Dna / 3 Amino / 3 masked-Iupac symbols "
+                      "(33 Dna in thorough); hasher input recorded byte by byte (<= 96 bytes) for windows of 1-3 symbols and k-mers K*BITS below/at the word; "
+                      "owned sequences at concrete boundary shapes"},
+    "outside": "HashMap::get itself is not executed (RandomState/SipHash, see C15); longer sequences",
+}
+
+PROPS["C08"] = {
+    "feature": "c08",
+    "tiers": tiers("C08"),
+    "mem_gb": 10,
+    "functions": ["SeqSlice::kmers", "KmerIter::next", "Kmer::unsafe_from", "TryFrom<&SeqSlice>/TryFrom<Seq> for Kmer", "From<Kmer> for Seq", "kmer! (concrete literals)",
+                  "SeqSlice::windows (comparison)"],
+    "bounds": {"all": "window of n symbols (n in {K-1,K,K+1,K+2} per instance) at symbolic offset in 2-3 (6 for K=64) symbolic words; try_from with symbolic "
+                      "length K-? .. K+2 at symbolic offset; (codec,K,storage) instances as listed in coverage.harnesses"},
+    "outside": "K not instantiated; FromStr/Display of k-mers go through text formatting (see C01 for the parser); sequences longer than K+2",
+}
+
+PROPS["C11"] = {
+    "feature": "c11",
+    "tiers": tiers("C11"),
+    "mem_gb": 10,
+    "functions": ["SeqIter::next", "RevIter::next", "SeqChunks::next", "SeqSlice::{iter,rev_iter,windows,chunks,chain}", "IntoIterator for &Seq / &SeqSlice"],
+    "bounds": {"all": "window at symbolic offset with symbolic length n <= 6 (2-bit) / 4 (5,6-bit); windows/chunks with symbolic width 1..n+2; every iterator "
+                      "is driven n+1 (max+1) times so termination within the bound is part of the claim"},
+    "outside": "n > 6; FromIterator<&SeqSlice> for Vec<Seq> (Vec growth)",
+}
